@@ -96,6 +96,7 @@ type Explorer struct {
 	witnesses    [][]inputRec
 	lastProgress time.Time
 	concLimit    int
+	decSites     map[string]int
 	shardK       int
 	shardN       int
 	shardDone    bool
@@ -156,6 +157,9 @@ func (ex *Explorer) branch(fr *frame, c *Term, why string) bool {
 		return false
 	}
 	ex.stats.Decisions++
+	if ex.decSites != nil {
+		ex.decSites[why+" "+fr.site()]++
+	}
 	// option 1 = true, option 0 = false. Explore "true" first.
 	tOK, tUnk := ex.feasible(c)
 	var fOK, fUnk bool
@@ -243,6 +247,9 @@ func (ex *Explorer) concretize(fr *frame, t *Term, lo, hi int64) int64 {
 		return int64(v)
 	}
 	ex.stats.Decisions++
+	if ex.decSites != nil {
+		ex.decSites["conc "+fr.site()]++
+	}
 	var vals []uint64
 	unk := false
 	const maxVals = 300
